@@ -141,7 +141,8 @@ package factory
 //@ ensures [failure-surfaces] implies(result1 == nil, Failed == old(Failed))
 
 //@ func (*defaultFactory).GetComponentByName
-//@ property C01 C07
+//@ property C01 C07 C09
+//@ implements container.Factory
 //@ requires [inv] FInv(f)
 //@ requires [no-hole] !Reg(f).HasHole
 //@ assigns RegFrame(Reg(f)), CreationFrame()
@@ -178,8 +179,12 @@ package factory
 //@ assigns CreationFrame()
 //@ ensures [lifecycle-untouched] St == old(St) && BeforeLen == old(BeforeLen) && AfterLen == old(AfterLen) && ApsCalls == old(ApsCalls) && InitCalls == old(InitCalls) && ShortCircuit == old(ShortCircuit) && Wrapped == old(Wrapped) && RTop >= old(RTop)
 //@ ensures [failure-surfaces] implies(result == nil, Failed == old(Failed))
+//@ let p0 = PropsLen[name]
+//@ ensures [properties-stage-in-list-order] PropsLen[name] >= p0 && forall(k, int, implies(p0 <= k && k < PropsLen[name], 0 <= PropsPos[name][k] && PropsPos[name][k] < len(f.componentPostProcessors) && toany(PropsAt[name][k]) == toany(f.componentPostProcessors[PropsPos[name][k]])), PropsPos[name][k]) && forall(a, int, forall(b, int, implies(p0 <= a && a < b && b < PropsLen[name], PropsPos[name][a] < PropsPos[name][b])))
+//@ ghost after call PostProcessProperties: PropsPos = store(PropsPos, name, store(PropsPos[name], PropsLen[name] - 1, _idx))
 //@ loop 1 invariant [lifecycle-untouched] St == old(St) && BeforeLen == old(BeforeLen) && AfterLen == old(AfterLen) && ApsCalls == old(ApsCalls) && InitCalls == old(InitCalls) && ShortCircuit == old(ShortCircuit) && Wrapped == old(Wrapped) && RTop >= old(RTop)
 //@ loop 1 invariant [no-failure-so-far] Failed == old(Failed)
+//@ loop 1 invariant [trace-so-far] PropsLen[name] >= p0 && forall(k, int, implies(p0 <= k && k < PropsLen[name], 0 <= PropsPos[name][k] && PropsPos[name][k] < _done && toany(PropsAt[name][k]) == toany(f.componentPostProcessors[PropsPos[name][k]])), PropsPos[name][k]) && forall(a, int, forall(b, int, implies(p0 <= a && a < b && b < PropsLen[name], PropsPos[name][a] < PropsPos[name][b])))
 
 //@ func (*PostProcessorRegistrationDelegate).GetEarlyBeanReference
 //@ property C03 C09
@@ -330,6 +335,7 @@ package factory
 // ---- wiring setters (C09): the App hands the factory its registry and configuration before start-up ----------------
 //@ bind (f *defaultFactory) container.Factory.WiredRegistry = f.singletonRegistry
 //@ bind (f *defaultFactory) container.Factory.WiredConfigure = f.configure
+//@ bind (f *defaultFactory) container.Factory.DefRegistry = f.definitionRegistry
 //@ func (*defaultFactory).SetRegistry
 //@ implements container.Factory
 //@ func (*defaultFactory).SetConfigure
@@ -371,3 +377,71 @@ package factory
 //@ loop 2 invariant [one-thread-per-name] forall(k, int, implies(ScanBase <= k && k < Forks, _visited[forkarg(k, name)]))
 //@ loop 2 invariant [names-distinct] forall(a, int, forall(b, int, implies(ScanBase <= a && a < b && b < Forks, forkarg(a, name) != forkarg(b, name))))
 //@ loop 3 invariant [error-kept] err != nil
+
+//@ func (*defaultFactory).GetConfigure
+//@ property C09
+//@ implements container.Factory
+//@ func (*defaultFactory).GetDefinitionRegistry
+//@ property C09
+//@ implements container.Factory
+//@ requires [wired] f.definitionRegistry != nil
+
+// ---- collecting and ordering the post-processors (C05, C09, C18) -------------------------------------------------------
+//   RawOK(f): every registered (not yet instantiated) post-processor is non-nil
+//   SortedProcs: ghost copy of the sorted list of registered post-processors (the slice the instantiation loop ranges over)
+//@ ghost var SortedProcs []container.ComponentPostProcessor
+//@ spec func RawOK(f *PostProcessorRegistrationDelegate) bool = forall(k, int, implies(0 <= k && k < len(f.rawComponentPostProcessors), f.rawComponentPostProcessors[k] != nil), f.rawComponentPostProcessors[k])
+//@ frame ScanPhaseFrame() = Forks, Joined, ScanRegion, ScanFailed, ScanRecorded, ScanBase, forkargs(applyDefinitionRegistryPostProcessors, name), forkargs(applyDefinitionRegistryPostProcessors, component)
+
+//@ func (*PostProcessorRegistrationDelegate).RegisterComponentPostProcessors
+//@ property C05 C09 C18
+//@ requires [processor-given] f != nil && ps != nil && RawOK(f)
+//@ assigns f.hasInstantiationAwareComponentPostProcessor, f.hasDestructionAwareComponentPostProcessor, f.rawComponentPostProcessors
+//@ ensures [registered-last] len(f.rawComponentPostProcessors) == len(old(f.rawComponentPostProcessors)) + 1 && f.rawComponentPostProcessors[len(f.rawComponentPostProcessors) - 1] == ps && RawOK(f)
+//@ ensures [earlier-kept] forall(k, int, implies(0 <= k && k < len(old(f.rawComponentPostProcessors)), f.rawComponentPostProcessors[k] == old(f.rawComponentPostProcessors[k])))
+//@ ensures [instantiation-aware-noted] implies(implements(ps, container.InstantiationAwareComponentPostProcessor), f.hasInstantiationAwareComponentPostProcessor)
+
+// InvokeBeanFactoryPostProcessors: wire the factory post-processors, scan the definitions, sort the component
+// post-processors (C12 contract) and instantiate the non-lazy ones. A failure anywhere surfaces as an error; on success
+// every post-processor in the final list is non-nil, and the list has the sorted list's length with every LAZY
+// processor at its sorted position (the built-in placeholder / expression / validation stages are lazy).
+//@ func (*PostProcessorRegistrationDelegate).InvokeBeanFactoryPostProcessors
+//@ property C05 C09 C18
+//@ requires [given] f != nil && factory != nil && RawOK(f) && ProcsOK(f)
+//@ requires [factory-processors-non-nil] forall(k, int, implies(0 <= k && k < len(factoryProcessors), factoryProcessors[k] != nil), factoryProcessors[k])
+//@ requires [no-live-threads] Joined <= Forks && forall(k, int, implies(k >= Forks, !ScanRecorded[k] && !ScanFailed[k]))
+//@ assigns f.rawComponentPostProcessors, f.componentPostProcessors, SortedProcs, ProcessorWiring(), Failed, ScanPhaseFrame(), AnyRegFrame(), CreationFrame()
+//@ ensures [failure-surfaces] implies(result == nil, Failed == old(Failed))
+//@ ensures [processors-non-nil] implies(result == nil, ProcsOK(f))
+//@ ensures [no-live-threads] Joined <= Forks && forall(k, int, implies(k >= Forks, !ScanRecorded[k] && !ScanFailed[k]))
+//@ let c0 = len(f.componentPostProcessors)
+//@ let r0 = len(f.rawComponentPostProcessors)
+//@ ensures [one-slot-per-registered-processor] implies(result == nil, len(SortedProcs) == r0 && len(f.componentPostProcessors) == c0 + len(SortedProcs))
+//@ ensures [classes-in-order] implies(result == nil, forall(i, int, forall(j, int, implies(0 <= i && i < j && j < len(SortedProcs), Cls(toany(SortedProcs[i])) <= Cls(toany(SortedProcs[j]))), SortedProcs[j]), SortedProcs[i]))
+//@ ensures [order-nondecreasing] implies(result == nil, forall(i, int, forall(j, int, implies(0 <= i && i < j && j < len(SortedProcs) && Cls(toany(SortedProcs[i])) == Cls(toany(SortedProcs[j])) && Cls(toany(SortedProcs[i])) < 2, Ord(toany(SortedProcs[i])) <= Ord(toany(SortedProcs[j]))), SortedProcs[j]), SortedProcs[i]))
+//@ ensures [lazy-processors-keep-their-sorted-slot] implies(result == nil, forall(k, int, implies(0 <= k && k < len(SortedProcs) && implements(toany(SortedProcs[k]), definition.LazyInit), f.componentPostProcessors[c0 + k] == SortedProcs[k]), SortedProcs[k]))
+//@ ensures [placeholders-before-expressions-before-validation] implies(result == nil, forall(a, int, forall(b, int, implies(0 <= a && a < len(SortedProcs) && 0 <= b && b < len(SortedProcs) && ((typeIs(toany(f.componentPostProcessors[c0 + a]), *processors.configQuoteAwarePostProcessors) && typeIs(toany(f.componentPostProcessors[c0 + b]), *processors.expressionTagAwarePostProcessors)) || (typeIs(toany(f.componentPostProcessors[c0 + a]), *processors.expressionTagAwarePostProcessors) && typeIs(toany(f.componentPostProcessors[c0 + b]), *processors.validateAwarePostProcessors))) && implements(toany(SortedProcs[a]), definition.LazyInit) && implements(toany(SortedProcs[b]), definition.LazyInit), a < b))))
+//@ ghost after call SortOrderedComponents: SortedProcs = _result
+// type-system fact stated as a site assumption: a ComponentPostProcessor value is neither a reflect.Value nor a reflect.Type
+//@ assume before call GetComponentName: [processor-is-a-component] PlainComponent(toany(processor))
+//@ loop 1 invariant [wiring] Failed == old(Failed) && RawOK(f) && ProcsOK(f) && Joined == old(Joined) && Forks == old(Forks) && ScanRecorded == old(ScanRecorded) && ScanFailed == old(ScanFailed)
+//@ loop 2 invariant [slots] len(f.componentPostProcessors) == c0 + _done && 0 <= _done && _done <= len(SortedProcs) && SortedProcs == _range && forall(k, int, implies(0 <= k && k < _done && implements(toany(SortedProcs[k]), definition.LazyInit), f.componentPostProcessors[c0 + k] == SortedProcs[k]), SortedProcs[k])
+//@ loop 2 invariant [instantiating] Failed == old(Failed) && ProcsOK(f) && Joined <= Forks && forall(k, int, implies(k >= Forks, !ScanRecorded[k] && !ScanFailed[k])) && forall(k, int, implies(0 <= k && k < len(_range), _range[k] != nil), _range[k])
+
+// PrepareComponents: every registered singleton is recorded, classified by the three processor interfaces, the factory
+// post-processors are wired, definitions scanned and component post-processors ordered (InvokeBeanFactoryPostProcessors).
+// It refines the phase contract of (Factory).PrepareComponents: a failure surfaces, no runner runs, nothing is refreshed.
+//@ func (*defaultFactory).PrepareComponents
+//@ property C09 C13 C18 C05
+//@ implements container.Factory
+//@ requires [wired] f != nil && f.singletonRegistry != nil && f.postProcessorRegistrationDelegate != nil && RawOK(f.postProcessorRegistrationDelegate) && ProcsOK(f.postProcessorRegistrationDelegate)
+//@ requires [no-live-threads] Joined <= Forks && forall(k, int, implies(k >= Forks, !ScanRecorded[k] && !ScanFailed[k]))
+//@ assigns f.registeredComponents, f.definitionRegistryPostProcessors, any(f.postProcessorRegistrationDelegate.hasInstantiationAwareComponentPostProcessor), any(f.postProcessorRegistrationDelegate.hasDestructionAwareComponentPostProcessor), any(f.postProcessorRegistrationDelegate.rawComponentPostProcessors), any(f.postProcessorRegistrationDelegate.componentPostProcessors), SortedProcs, ProcessorWiring(), Failed, ScanPhaseFrame(), AnyRegFrame(), CreationFrame()
+//@ ensures [processors-ready] implies(result == nil, ProcsOK(f.postProcessorRegistrationDelegate))
+//@ loop 1 invariant [collecting] Failed == old(Failed) && RawOK(f.postProcessorRegistrationDelegate) && ProcsOK(f.postProcessorRegistrationDelegate) && f.registeredComponents != nil && forall(k, int, implies(0 <= k && k < len(factoryPostProcessors), factoryPostProcessors[k] != nil), factoryPostProcessors[k]) && Joined == old(Joined) && Forks == old(Forks) && ScanRecorded == old(ScanRecorded) && ScanFailed == old(ScanFailed) && RanLen == old(RanLen) && RanAt == old(RanAt) && RanSrc == old(RanSrc) && Refreshed == old(Refreshed)
+
+//@ func (*defaultFactory).registerBeanPostProcessors
+//@ property C09 C18 C05
+//@ requires [given] f != nil && f.postProcessorRegistrationDelegate != nil && postProcessor != nil && RawOK(f.postProcessorRegistrationDelegate)
+//@ assigns f.postProcessorRegistrationDelegate.hasInstantiationAwareComponentPostProcessor, f.postProcessorRegistrationDelegate.hasDestructionAwareComponentPostProcessor, f.postProcessorRegistrationDelegate.rawComponentPostProcessors
+//@ ensures [registered] RawOK(f.postProcessorRegistrationDelegate) && len(f.postProcessorRegistrationDelegate.rawComponentPostProcessors) == len(old(f.postProcessorRegistrationDelegate.rawComponentPostProcessors)) + 1
